@@ -98,10 +98,21 @@ func (x xset) String() string {
 	return s
 }
 
-func (x xset) providers() []peer.AddrInfo {
+// entryAddrs: the addresses an extended-provider entry carries are its own:
+// they differ from those of the provider record and between the chain-level
+// list (where 0) and a contextual list (where 1), also for the main provider.
+func entryAddrs(where, p int) []multiaddr.Multiaddr {
+	own := multiaddr.StringCast(fmt.Sprintf("/ip4/10.%d.%d.9/tcp/99/http", where+1, p))
+	if p == 2 {
+		return []multiaddr.Multiaddr{own}
+	}
+	return append([]multiaddr.Multiaddr{own}, addrs[p]...)
+}
+
+func (x xset) providers(where int) []peer.AddrInfo {
 	out := make([]peer.AddrInfo, len(x.entries))
 	for i, e := range x.entries {
-		out[i] = peer.AddrInfo{ID: ids[e.p], Addrs: addrs[e.p]}
+		out[i] = peer.AddrInfo{ID: ids[e.p], Addrs: entryAddrs(where, e.p)}
 	}
 	return out
 }
@@ -165,9 +176,9 @@ func (r rec) build() *model.ProviderInfo {
 	if !r.hasExt {
 		return pi
 	}
-	ep := &model.ExtendedProviders{Providers: r.chain.providers(), Metadatas: r.chain.metadatas()}
+	ep := &model.ExtendedProviders{Providers: r.chain.providers(0), Metadatas: r.chain.metadatas()}
 	for _, c := range r.ctxs {
-		ep.Contextual = append(ep.Contextual, model.ContextualExtendedProviders{Override: c.override, ContextID: c.id, Providers: c.set.providers(), Metadatas: c.set.metadatas()})
+		ep.Contextual = append(ep.Contextual, model.ContextualExtendedProviders{Override: c.override, ContextID: c.id, Providers: c.set.providers(1), Metadatas: c.set.metadatas()})
 	}
 	pi.ExtendedProviders = ep
 	return pi
@@ -206,7 +217,7 @@ func spec(r rec, ctxID, md []byte) []result {
 	if !r.hasExt {
 		return out
 	}
-	expand := func(x xset) {
+	expand := func(x xset, where int) {
 		have := len(x.metadatas())
 		for i, e := range x.entries {
 			own := mdBytes(e.md)
@@ -220,19 +231,19 @@ func spec(r rec, ctxID, md []byte) []result {
 			if len(own) == 0 { // absent or empty: substitute the looked-up metadata
 				use = md
 			}
-			out = append(out, result{ctxID, use, ids[e.p], addrStr(addrs[e.p])})
+			out = append(out, result{ctxID, use, ids[e.p], addrStr(entryAddrs(where, e.p))})
 		}
 	}
 	override := false
 	for _, c := range r.ctxs {
 		if c.id == string(ctxID) {
 			override = c.override
-			expand(c.set)
+			expand(c.set, 1)
 			break
 		}
 	}
 	if !override {
-		expand(r.chain)
+		expand(r.chain, 0)
 	}
 	return out
 }
@@ -247,7 +258,7 @@ func sameResults(got []model.ProviderResult, want []result) (bool, string) {
 			return false, fmt.Sprintf("result %d has no provider", i)
 		}
 		if g.Provider.ID != w.id || addrStr(g.Provider.Addrs) != w.addrs {
-			return false, fmt.Sprintf("result %d is provider %s, want %s", i, g.Provider.ID.ShortString(), w.id.ShortString())
+			return false, fmt.Sprintf("result %d is provider %s with addresses %s, want %s with %s", i, g.Provider.ID.ShortString(), addrStr(g.Provider.Addrs), w.id.ShortString(), w.addrs)
 		}
 		if !bytes.Equal(g.ContextID, w.ctx) {
 			return false, fmt.Sprintf("result %d context ID %q, want %q", i, g.ContextID, w.ctx)
@@ -286,7 +297,7 @@ func firstLine(s string) string {
 
 func TestCheck(t *testing.T) {
 	r := vp.New("C17", "exploration",
-		"provider records: chain-level lists = every sequence of length <=N over {main, X, Y} x per-entry metadata {nil, empty, equal to looked-up, different}; contextual sets for context IDs \"c\" and \"\" with the same alphabets (length <=M) and override on/off; metadata-list lengths {matching, truncated to every shorter length, one longer, nil} for lists of up to 3 providers; every record served directly and after a JSON round trip, entering the cache by the constructor's preload refresh and by a lookup miss; lookups: context ID in {\"c\",\"d\",empty} x metadata {nil,\"m\"}. Non-trivial: records with at least one extended provider. Distinct = distinct (record, transport, lookup).",
+		"provider records: chain-level lists = every sequence of length <=N over {main, X, Y} x per-entry metadata {nil, empty, equal to looked-up, different}, every entry with addresses of its own (different from the provider record's and between chain-level and contextual lists); contextual sets for context IDs \"c\" and \"\" with the same alphabets (length <=M) and override on/off; metadata-list lengths {matching, truncated to every shorter length, one longer, nil} for lists of up to 3 providers; every record served directly and after a JSON round trip, entering the cache by the constructor's preload refresh and by a lookup miss; lookups: context ID in {\"c\",\"d\",empty} x metadata {nil,\"m\"}. Non-trivial: records with at least one extended provider. Distinct = distinct (record, transport, lookup).",
 		"records whose metadata list length differs from the provider list: an error is accepted; where results are produced they are held to the expansion rules with a provider that has no entry in the metadata list counting as 'no metadata of its own (absent)'; surplus metadata entries are ignored",
 		"records with two contextual sets for the same context ID are not generated",
 	)
